@@ -104,7 +104,7 @@ func c15rptProfile(from string, rp *c15Rpt) *profile.Profile {
 func c15rptInProcess(from, to string, rp *c15Rpt) (out string, panicked string, err error) {
 	p := c15rptProfile(from, rp)
 	units, _ := p.NumLabelUnits()
-	format := map[string]int{"tags": report.Tags, "traces": report.Traces, "top": report.Text, "tree": report.Tree, "peek": report.Tree, "dot": report.Dot}[rp.Mode]
+	format := map[string]int{"tags": report.Tags, "traces": report.Traces, "top": report.Text, "tree": report.Tree, "peek": report.Tree, "dot": report.Dot, "topproto": report.TopProto}[rp.Mode]
 	var sym *regexp.Regexp
 	if rp.Mode == "peek" {
 		sym = regexp.MustCompile("fn000")
@@ -838,11 +838,12 @@ var c15dotEdge = regexp.MustCompile(`^N\d+ -> N\d+ \[label=" (\S+)".* tooltip="\
 var c15legend = regexp.MustCompile(`Showing nodes accounting for (\S+), (\S+) of (\S+) total`)
 
 // evalTop handles -top and -tree (and -top -tagroot=key when rootKey != "").
-func (x *c15rptCtx) evalTop(out string, kind string, rootKey string) {
-	type node struct{ flat, cum, name string }
-	type edge struct{ w, name string }
-	var nodes []node
-	var edges []edge
+type c15node struct{ flat, cum, name string }
+type c15edge struct{ w, name string }
+
+func c15parseTopLike(out, kind string) (nodes []c15node, edges []c15edge) {
+	type node = c15node
+	type edge = c15edge
 	hdr := false
 	tree := kind == "tree" || kind == "peek"
 	for _, ln := range strings.Split(out, "\n") {
@@ -881,6 +882,12 @@ func (x *c15rptCtx) evalTop(out string, kind string, rootKey string) {
 			nodes = append(nodes, node{f[0], f[3], f[5]})
 		}
 	}
+	return nodes, edges
+}
+
+func (x *c15rptCtx) evalTop(out string, kind string, rootKey string) {
+	type node = c15node
+	nodes, edges := c15parseTopLike(out, kind)
 	sum, abssum := x.totals()
 	// nodes the report may drop: cum <= |total × nodeFraction|
 	cutoff := int64(0)
@@ -923,6 +930,26 @@ func (x *c15rptCtx) evalTop(out string, kind string, rootKey string) {
 	if !ok {
 		x.viol("C15/report/"+x.rp.Mode+"/minimum/no-single-unit-of-the-family", "the flat values are not all printed in one unit of the sample unit's family within display rounding:\n"+c15trunc(out))
 		return
+	}
+	ratioActive := x.rp.ratio() > 0 && x.rp.ratio() != 1
+	if x.to == "minimum" && !ratioActive && rootKey == "" {
+		// selectOutputUnit takes the unit from the smallest non-zero magnitude (×100 at most): no
+		// non-zero value may vanish
+		for i, s := range x.rp.Samples {
+			if n, listed := leaf[fmt.Sprintf("fn%03d", i)]; listed && s.Value != 0 && n.flat == "0" {
+				x.viol("C15/report/"+x.rp.Mode+"/minimum/non-zero-value-printed-as-0", fmt.Sprintf("fn%03d has the value %d %q and is printed as 0 under unit=minimum (the unit must suit the smallest non-zero magnitude):\n%s", i, s.Value, x.from, c15trunc(out)))
+				break
+			}
+		}
+	}
+	if x.to == "minimum" && rootKey == "" && x.rp.NodeFraction == 0 && !x.failed && c15modelDomain(x.from) {
+		if mu, ok := x.modelUnit(sum, abssum, false); ok {
+			x.st.c.Res.ModelCompared++
+			if !x.consistentWith(leaf, sum, abssum, out, mu) {
+				x.failed = true
+				x.st.c.Disagree("C15/model-report/"+x.rp.Mode+"/minimum/output-unit", fmt.Sprintf("%s: the labels are not in the unit %q the model of selectOutputUnit chooses:\n%s", x.cs.Text, mu, c15trunc(out)), "theorems selectOutputUnit_sign_invariant, selectOutputUnit_keeps_smallest_visible / correspondence Measure.selectOutputUnit ~ Report.selectOutputUnit", x.cs)
+			}
+		}
 	}
 	for i, s := range x.rp.Samples {
 		n, listed := leaf[fmt.Sprintf("fn%03d", i)]
@@ -998,6 +1025,281 @@ func (x *c15rptCtx) evalTop(out string, kind string, rootKey string) {
 	}
 }
 
+// modelUnit asks the model of selectOutputUnit for the graph of this profile: one leaf node per
+// sample (flat = cum = value) and the root (flat 0, cum Σ values).
+func (x *c15rptCtx) modelUnit(sum, abssum int64, callgrind bool) (string, bool) {
+	var b strings.Builder
+	fmt.Fprintf(&b, "c15.selectunit %d", len(x.rp.Samples)+1)
+	for _, s := range x.rp.Samples {
+		fmt.Fprintf(&b, " %d %d", s.Value, s.Value)
+	}
+	fmt.Fprintf(&b, " 0 %d %d", sum, abssum)
+	R, ok := c15ratOfFloat(x.rp.ratio())
+	if !ok {
+		return "", false
+	}
+	cg := 0
+	if callgrind {
+		cg = 1
+	}
+	fmt.Fprintf(&b, " %s %s %s %d", R.Num().String(), R.Denom().String(), c15tok(x.from), cg)
+	rep := x.st.c.Drv.Ask(b.String())
+	t := &c15tr{toks: strings.Fields(rep)}
+	u := t.str()
+	if t.bad {
+		return "", false
+	}
+	return u, true
+}
+
+// consistentWith: every sample-value label of a top-like report is an admissible label under unit u.
+func (x *c15rptCtx) consistentWith(leaf map[string]c15node, sum, abssum int64, out, u string) bool {
+	for i, s := range x.rp.Samples {
+		if n, ok := leaf[fmt.Sprintf("fn%03d", i)]; ok && !x.valOK(n.flat, s.Value, u) {
+			return false
+		}
+	}
+	if r, ok := leaf["root"]; ok && !x.valOK(r.cum, sum, u) {
+		return false
+	}
+	if m := c15legend.FindStringSubmatch(out); m != nil && !x.valOK(m[3], abssum, u) {
+		return false
+	}
+	return true
+}
+
+func c15mirror(l string) string {
+	switch {
+	case l == "0" || l == "":
+		return l
+	case strings.HasPrefix(l, "-"):
+		return l[1:]
+	}
+	return "-" + l
+}
+
+// quantities: every printed quantity of a report, by name.  Keys with "~" are sign-sensitive
+// sums of several samples (mirrored only when ALL values are negated), keys with "^" depend on the
+// magnitude of such a sum; "flat:"/"cum:"/"edge:"/
+// "value:" keys belong to the sample fnNNN; all others do not depend on signs.
+func c15quantities(out, mode string) map[string]string {
+	q := map[string]string{}
+	switch mode {
+	case "top", "tree", "peek", "dot":
+		nodes, edges := c15parseTopLike(out, mode)
+		for _, n := range nodes {
+			if strings.HasPrefix(n.name, "fn") {
+				q["flat:"+n.name], q["cum:"+n.name] = n.flat, n.cum
+			} else if n.name == "root" {
+				q["rootcum~"] = n.cum
+			}
+		}
+		for _, e := range edges {
+			if strings.HasPrefix(e.name, "fn") {
+				q["edge:"+e.name] = e.w
+			}
+		}
+		if m := c15legend.FindStringSubmatch(out); m != nil {
+			q["legend-shown~"], q["legend-pct^"], q["legend-total"] = m[1], m[2], m[3]
+		}
+	case "traces":
+		for _, b := range strings.Split(out, "-----------+-------------------------------------------------------")[1:] {
+			lbls := ""
+			for _, ln := range strings.Split(b, "\n") {
+				if m := c15traceVal.FindStringSubmatch(ln); m != nil {
+					q["value:"+m[2]] = m[1]
+					q["tags:"+m[2]] = lbls
+					break
+				}
+				lbls += strings.Join(strings.Fields(ln), " ") + ";"
+			}
+		}
+	case "tags":
+		key := ""
+		for _, ln := range strings.Split(out, "\n") {
+			if m := c15tagHdr.FindStringSubmatch(ln); m != nil {
+				key = m[1]
+				q["tagtotal~:"+key], q["profiletotal:"+key] = m[2], m[3]
+			} else if strings.TrimSpace(ln) == "" {
+				key = ""
+			} else if m := c15tagRow.FindStringSubmatch(ln); m != nil && key != "" {
+				q["tagrow~:"+key+":"+m[3]] = m[1]
+			}
+		}
+	case "topproto":
+		if p, err := profile.ParseData([]byte(out)); err == nil && len(p.SampleType) == 2 {
+			q["unit"] = p.SampleType[1].Unit
+			for _, s := range p.Sample {
+				if len(s.Location) == 1 && len(s.Location[0].Line) == 1 && s.Location[0].Line[0].Function != nil && len(s.Value) == 2 {
+					n := s.Location[0].Line[0].Function.Name
+					if strings.HasPrefix(n, "fn") {
+						q["flat:"+n], q["cum:"+n] = strconv.FormatInt(s.Value[1], 10), strconv.FormatInt(s.Value[0], 10)
+					} else if n == "root" {
+						q["rootcum~"] = strconv.FormatInt(s.Value[0], 10)
+					}
+				}
+			}
+		}
+	}
+	if m := c15durLine.FindStringSubmatch(out); m != nil {
+		q["header-duration"], q["header-total"], q["header-pct"] = m[1], m[2], m[3]
+	}
+	return q
+}
+
+// signMetamorphic: the same profile with values negated must print mirror-image labels: the same
+// unit and digits with the sign flipped for every quantity that is negated, identical text for
+// those that are not (totals are sums of magnitudes).  Variant 1 negates every value; variant 2 a
+// subset (then only per-sample quantities and totals are compared, and only when the root's signed
+// sum is not what selectOutputUnit takes the unit from).
+func (x *c15rptCtx) signMetamorphic(out string) {
+	if x.rp.CLI || x.partner || x.failed {
+		return
+	}
+	base := c15quantities(out, x.rp.Mode)
+	for variant := 1; variant <= 2; variant++ {
+		q := *x.rp
+		q.Samples = nil
+		flipped := map[string]bool{}
+		var sum1, sum2, minLeaf int64
+		for i, s := range x.rp.Samples {
+			f := variant == 1 || (uint64(s.Value)*2654435761+uint64(i)*40503)%3 == 0
+			v := s.Value
+			sum1 += v
+			if f {
+				v = -v
+				flipped[fmt.Sprintf("fn%03d", i)] = true
+			}
+			sum2 += v
+			if a := max(s.Value, -s.Value); a != 0 && (minLeaf == 0 || a < minLeaf) {
+				minLeaf = a
+			}
+			q.Samples = append(q.Samples, c15RptSample{Value: v, Labels: s.Labels})
+		}
+		if variant == 2 {
+			if len(flipped) == 0 || len(flipped) == len(x.rp.Samples) || x.rp.NodeFraction > 0 {
+				continue // (with trimming the root's signed sum decides which nodes the graph keeps)
+			}
+			a1, a2 := max(sum1, -sum1), max(sum2, -sum2)
+			if (a1 != 0 && a1 < minLeaf) || (a2 != 0 && a2 < minLeaf) {
+				continue // the root's cum is the smallest magnitude in one rendering only
+			}
+		}
+		o2, pn, err := c15rptInProcess(x.from, x.to, &q)
+		if pn != "" || err != nil {
+			x.viol("C15/report/"+x.rp.Mode+"/negated/generate-failed", fmt.Sprintf("the profile with negated values cannot be rendered: %s %v", pn, err))
+			return
+		}
+		other := c15quantities(o2, x.rp.Mode)
+		x.st.c.Res.Hit(fmt.Sprintf("rpt:sign-metamorphic-%d", variant))
+		keys := make([]string, 0, len(base))
+		for k := range base {
+			keys = append(keys, k)
+		}
+		sort.Strings(keys)
+		for _, k := range keys {
+			a := base[k]
+			b, ok := other[k]
+			want := a
+			name := k
+			if i := strings.Index(k, ":"); i >= 0 {
+				name = k[i+1:]
+			}
+			switch {
+			case strings.Contains(k, "^"): // depends on a signed sum, but not on its sign
+				if variant == 2 {
+					continue
+				}
+			case strings.Contains(k, "~"):
+				if variant == 2 {
+					continue
+				}
+				want = c15mirror(a)
+			case strings.HasPrefix(k, "flat:") || strings.HasPrefix(k, "cum:") || strings.HasPrefix(k, "edge:") || strings.HasPrefix(k, "value:"):
+				if flipped[name] {
+					want = c15mirror(a)
+				}
+			}
+			if !ok {
+				if variant == 2 || strings.HasPrefix(k, "tagrow") {
+					continue // trimmed rows / regrouped labels
+				}
+				b = "<missing>"
+			}
+			if strings.Contains(a, "9223372036854775808") || strings.Contains(b, "9223372036854775808") {
+				continue // int64 overflow of a converted value: outside the property's domain
+			}
+			if b != want {
+				what := "all values negated"
+				if variant == 2 {
+					what = fmt.Sprintf("the values of %d of %d samples negated", len(flipped), len(x.rp.Samples))
+				}
+				x.viol("C15/report/"+x.rp.Mode+"/negation-not-mirrored", fmt.Sprintf("with %s, %s is printed %q; the original prints %q, so %q was expected (same unit and digits, sign flipped where the value is):\n--- original\n%s\n--- negated\n%s", what, k, b, a, want, c15trunc(out), c15trunc(o2)))
+				return
+			}
+		}
+	}
+}
+
+// evalTopProto: -topproto writes the top nodes as a profile whose sample types carry the output unit.
+func (x *c15rptCtx) evalTopProto(out string) {
+	q := c15quantities(out, "topproto")
+	U, ok := q["unit"]
+	if !ok {
+		x.viol("C15/report/topproto/unparsable", "the output is not a profile with (cum, flat) sample types")
+		return
+	}
+	sum, abssum := x.totals()
+	check := func(site string, got string, v int64) {
+		g, err := strconv.ParseInt(got, 10, 64)
+		if err != nil {
+			return
+		}
+		// int64(Scale(v, sample unit, U)): within one unit of the exact magnitude, in U
+		rf, ru := x.st.recognise(x.from), x.st.recognise(U)
+		var want *big.Rat
+		switch {
+		case !rf.known:
+			want = new(big.Rat).SetInt64(v)
+		case ru.known && ru.fam == rf.fam:
+			want = new(big.Rat).Quo(new(big.Rat).Mul(new(big.Rat).SetInt64(v), rf.f), ru.f)
+		default:
+			if x.to == "minimum" {
+				x.viol("C15/report/topproto/unit", fmt.Sprintf("sample type unit %q is not a unit of the family of the sample unit %q", U, x.from))
+			} else {
+				// an explicit -unit of another family: the proto is labelled with the requested string
+				// while the values are in the family's default unit; not judged here
+				x.st.c.Res.Hit("rpt:topproto-foreign-target-skipped")
+			}
+			return
+		}
+		if c15abs(want).Cmp(new(big.Rat).SetInt(new(big.Int).Lsh(big.NewInt(1), 62))) >= 0 {
+			return // the converted value does not fit an int64: outside the property's domain
+		}
+		lim := new(big.Rat).Add(big.NewRat(1, 1), new(big.Rat).Mul(c15abs(want), c15tol))
+		if c15abs(new(big.Rat).Sub(new(big.Rat).SetInt64(g), want)).Cmp(lim) > 0 {
+			wf, _ := want.Float64()
+			x.viol("C15/report/topproto/"+site, fmt.Sprintf("%s of %d %q is written as %d %q, expected %v", site, v, x.from, g, U, wf))
+		}
+	}
+	for i, s := range x.rp.Samples {
+		n := fmt.Sprintf("fn%03d", i)
+		if f, ok := q["flat:"+n]; ok {
+			check("flat", f, s.Value)
+			check("cum", q["cum:"+n], s.Value)
+		}
+	}
+	if rc, ok := q["rootcum~"]; ok {
+		check("cum", rc, sum)
+	}
+	if x.to == "minimum" && x.rp.NodeFraction == 0 && !x.failed && c15modelDomain(x.from) {
+		if mu, ok := x.modelUnit(sum, abssum, false); ok && mu != U {
+			x.failed = true
+			x.st.c.Disagree("C15/model-report/topproto/minimum/output-unit", fmt.Sprintf("%s: unit %q, the model of selectOutputUnit chooses %q", x.cs.Text, U, mu), "correspondence Measure.selectOutputUnit ~ Report.selectOutputUnit", x.cs)
+		}
+	}
+}
+
 func (st *c15State) rptEval(cs c15Case, out string) bool {
 	rp := cs.Rpt
 	x := &c15rptCtx{st: st, cs: cs, from: c15unhex(cs.From), to: c15unhex(cs.To), rp: rp, units: map[string]string{}}
@@ -1017,6 +1319,11 @@ func (st *c15State) rptEval(cs c15Case, out string) bool {
 		x.evalTop(out, rp.Mode, "")
 	case "tagroot":
 		x.evalTop(out, "top", rp.RootKey)
+	case "topproto":
+		x.evalTopProto(out)
+	}
+	if rp.Mode != "tagroot" {
+		x.signMetamorphic(out)
 	}
 	fams := map[int]bool{}
 	for _, u := range x.units {
@@ -1024,7 +1331,7 @@ func (st *c15State) rptEval(cs c15Case, out string) bool {
 			fams[r.fam] = true
 		}
 	}
-	return len(fams) >= 2 || ((rp.Mode == "top" || rp.Mode == "tree" || rp.Mode == "peek" || rp.Mode == "dot") && st.recognise(x.from).known)
+	return len(fams) >= 2 || ((rp.Mode == "top" || rp.Mode == "tree" || rp.Mode == "peek" || rp.Mode == "dot" || rp.Mode == "topproto") && st.recognise(x.from).known)
 }
 
 func c15rptText(cs c15Case) string {
@@ -1205,10 +1512,25 @@ func (st *c15State) genRpt(r *Rng) (from, to string, rp *c15Rpt) {
 		}
 		rp.Samples = append(rp.Samples, s)
 	}
+	// diff-like profiles: mixed signs, often with the smallest magnitude negative
+	if r.Chance(40) {
+		mi := 0
+		for i := range rp.Samples {
+			if r.Chance(35) {
+				rp.Samples[i].Value = -rp.Samples[i].Value
+			}
+			if a, b := rp.Samples[i].Value, rp.Samples[mi].Value; max(a, -a) < max(b, -b) {
+				mi = i
+			}
+		}
+		if v := rp.Samples[mi].Value; v > 0 && r.Chance(75) {
+			rp.Samples[mi].Value = -v
+		}
+	}
 	if r.Chance(70) {
 		var total int64
 		for _, s := range rp.Samples {
-			total += s.Value
+			total += max(s.Value, -s.Value)
 		}
 		unitNs := big.NewRat(1, 1)
 		if rc, nsr := st.recognise(from), st.recognise("ns"); rc.known && nsr.known && rc.fam == nsr.fam {
@@ -1244,7 +1566,7 @@ func (st *c15State) reportStream(r *Rng) {
 	var jobs []cliJob
 	for k := 0; k < n; k++ {
 		from, to, rp := st.genRpt(r)
-		for _, mode := range []string{"tags", "traces", "top", "tree", "peek", "dot"} {
+		for _, mode := range []string{"tags", "traces", "top", "tree", "peek", "dot", "topproto"} {
 			for _, rev := range []bool{false, true} {
 				q := *rp
 				q.Mode, q.Reverse = mode, rev
